@@ -739,6 +739,12 @@ func successReturns(h *ssa.Function, kind succKind, idx int) []retPoint {
 		v := ret.Results[idx]
 		if phi, ok := v.(*ssa.Phi); ok && phi.Block() == b {
 			for i, e := range phi.Edges {
+				if kind == errNil {
+					// `if err != nil { result = err }`: not a success return
+					if isNil, known := knownNilOnEdge(b.Preds[i], e); known && !isNil {
+						continue
+					}
+				}
 				if mayBeSuccess(e, kind) {
 					res = append(res, retPoint{ret, b.Preds[i], e})
 				}
